@@ -415,7 +415,7 @@ func (s *fsm13) finish(ctx context.Context, conn Conn) (State, error) {
 	case <-vtrace.TimeoutC(s.cfg):
 		vtrace.Emit(s.cfg, "ph.timer", "client", s.state.IsClient, "virtual", true)
 		if err := s.postHandshake.retransmitPostHandshake(
-			ctx, conn, time.Now().Add(1000*time.Hour), s.cfg.DisableRetransmitBackoff,
+			ctx, conn, vtrace.VirtualNow(s.cfg), s.cfg.DisableRetransmitBackoff,
 		); err != nil {
 			return StateErrored, err
 		}
